@@ -450,8 +450,21 @@ impl<'a> CBORValidator<'a> {
     }
 
     let mut compatibility = vec![vec![false; entry_indices.len()]; claim_positions.len()];
+    let failed_entry_index = self
+      .single_entry_claims
+      .get(current_claim_position)
+      .map(|claim| claim.entry_index);
     for (claim_slot, entry) in claim_entries.iter().enumerate() {
       for (entry_slot, entry_index) in entry_indices.iter().enumerate() {
+        // The current member's selected pair is the one whose value has just
+        // failed validation (that is why a reassignment is searched). Validating
+        // it again would repeat the whole subtree at every nesting level,
+        // doubling the work per level of a recursive schema.
+        if claim_positions[claim_slot] == current_claim_position
+          && Some(*entry_index) == failed_entry_index
+        {
+          continue;
+        }
         let (key, value) = entries[*entry_index].clone();
         compatibility[claim_slot][entry_slot] = self.single_pair_validates_entry::<T>(
           entry,
